@@ -19,7 +19,8 @@ RULE = (
     "operations (what the generator body itself delivers is not asserted, only the state and every call); "
     "W2 and W3 also have a call inside a block shielded by no_overlay() (nothing is delivered) and an "
     "exception leaving such a block as operations, W3 an overlay entered, used and left inside a copy of the "
-    "current context; each history is replayed on a fresh world through the real API with a boring model (set of "
+    "current context; W6 f>a and k>a where the body of k activates or deactivates one of the two global probes "
+    "between its own two bindings; each history is replayed on a fresh world through the real API with a boring model (set of "
     "active probes => expected per-probe streams) in lock-step; after every step: every active probe got "
     "exactly the expected new events, inactive probes none, instrumentation counters equal the model's, "
     "and at quiescence f and g run their original code objects, no handler collection is installed, "
@@ -55,6 +56,16 @@ def t(n):
     for i in range(n):
         v = i * 10
         yield v
+
+HOOK = [None]
+
+def k(x):
+    # between its two bindings k runs whatever the harness put in HOOK (activate / deactivate a probe)
+    a = x + 1
+    if HOOK[0] is not None:
+        HOOK[0]()
+    b = a * 2
+    return b
 '''
 
 # slot -> kind, selector, style (global: any order; with: LIFO among with-slots), functions it tools,
@@ -72,6 +83,7 @@ SLOTS = {
     9: ("probe", "h > d", "global", (), False),             # probe on the tooled function h
     10: ("fork", "f > b", "with", (), False),               # fork of overlay 4 (shares its handler) plus a tap on f > b
     11: ("probe", "t > v", "global", ("t",), False),        # probe on the generator function t
+    12: ("probe", "k > a", "global", ("k",), False),        # probe on k, whose body can (de)activate probes
 }
 # slots whose activation instruments f for b
 INSTRUMENTS_B = (1, 3, 5, 7)
@@ -85,12 +97,18 @@ WORLDS = {
     "W4": (0, 1, 4, 10),
     # W5: a generator of t is started, advanced, closed or dropped at any point of the history
     "W5": (0, 4, 11),
+    # W6: global probes are activated / deactivated by code that runs inside a call of k
+    "W6": (0, 12),
 }
 
 
 def expected_events(slot, fn, x, instrumented_a):
     # Events `slot` receives from one call of fn(x).
     a, b = x + 1, (x + 1) * 2
+    if fn == "k":
+        return [{"a": a}] if slot == 12 else []
+    if slot == 12:
+        return []
     if fn == "h":
         if slot == 8:
             return [{"e": (x + 5) * 3}]
@@ -114,7 +132,8 @@ class World:
     def __init__(self):
         self.ns = world.make_module(SRC)
         self.f, self.g, self.h, self.t = self.ns["f"], self.ns["g"], self.ns["h"], self.ns["t"]
-        self.orig = {"f": self.f.__code__, "g": self.g.__code__, "h": self.h.__code__, "t": self.t.__code__}
+        self.k = self.ns["k"]
+        self.orig = {"f": self.f.__code__, "g": self.g.__code__, "h": self.h.__code__, "t": self.t.__code__, "k": self.k.__code__}
         self.depth = {}
         self.gen = None
         self.base4 = None
@@ -155,6 +174,10 @@ class System:
             # a block shielded from every overlay (ptera.overlay.no_overlay): a call inside it, and
             # an exception leaving it
             ops += [("shield", "call"), ("shield", "raise")]
+        if self.wname == "W6":
+            ops.append(("callk",))
+            for i in self.slots:
+                ops.append(("callk-act", i) if i not in act else ("callk-deact", i))
         if self.wname == "W3":
             # inside a copy of the current context (what a worker thread started with copy_context().run
             # sees): one more overlay on h is entered, h is called, the overlay is left
@@ -175,6 +198,15 @@ class System:
             return (act, wstack[:-1], calls, gen), "ok"
         if op[0] == "act_bad":
             return model, "refused"
+        if op[0] in ("callk", "callk-act", "callk-deact"):
+            x = calls + 1
+            exp = {s: expected_events(s, "k", x, False) for s in act}
+            exp = tuple(sorted((s, tuple(map(_canon, e))) for s, e in exp.items() if e))
+            if op[0] == "callk-act":
+                act = act + (op[1],)
+            elif op[0] == "callk-deact":
+                act = tuple(i for i in act if i != op[1])
+            return (act, wstack, x, gen), ("result", (x + 1) * 2, exp)
         if op[0] == "ctxrun":
             x = calls + 1
             active = list(act) + list(wstack) + [8]
@@ -228,7 +260,7 @@ class System:
         from ptera import probing, BaseOverlay, Immediate, Overlay
         from ptera.selector import select
 
-        env = {"f": w.f, "g": w.g, "h": w.h, "t": w.t}
+        env = {"f": w.f, "g": w.g, "h": w.h, "t": w.t, "k": w.k}
         kind, text = SLOTS[slot][0], SLOTS[slot][1]
 
         def overlay(slot):
@@ -269,6 +301,26 @@ class System:
                 w.depth[op[1]] = w.depth.get(op[1], 0) + 1
                 p.__enter__()
                 return "ok"
+            if op[0] in ("callk", "callk-act", "callk-deact"):
+                for s in w.streams.values():
+                    del s[:]
+                w.calls += 1
+                hook = w.ns["HOOK"]
+                if op[0] == "callk-act":
+                    def inside(slot=op[1]):
+                        p = self._make(w, slot)
+                        w.probes[slot] = p
+                        w.depth[slot] = 1
+                        p.__enter__()
+                    hook[0] = inside
+                elif op[0] == "callk-deact":
+                    hook[0] = lambda slot=op[1]: w.probes.pop(slot).__exit__(None, None, None)
+                try:
+                    r = w.k(w.calls)
+                finally:
+                    hook[0] = None
+                got = {s: list(e) for s, e in w.streams.items() if e}
+                return ("result", r, tuple(sorted((s, tuple(map(_canon, e))) for s, e in got.items())))
             if op[0] == "ctxrun":
                 import contextvars
 
@@ -382,7 +434,7 @@ class System:
                 slot_of.setdefault(id(h), s)
         hc = None if pairs is None else "unknown" if pairs is I.UNKNOWN else tuple(slot_of.get(id(acc), "?") for _, acc in pairs)
         fns = []
-        for name in ("f", "g", "h", "t"):
+        for name in ("f", "g", "h", "t", "k"):
             fn = w.ns[name]
             fns.append((name, I.stack_state(fn), fn.__code__ is w.orig[name]))
         return (hc, tuple(sorted(w.probes)), tuple(fns), I.n_global_probes(), w.gen is not None)
@@ -394,7 +446,7 @@ class System:
         act, wstack, calls, gen = model
         probs = []
         active = list(act) + list(wstack)
-        for name in ("f", "g", "t"):
+        for name in ("f", "g", "t", "k"):
             n = sum(1 for s in active if name in SLOTS[s][3])
             fn = w.ns[name]
             from pv.core import introspect as I
